@@ -1,0 +1,108 @@
+//go:build verif
+
+package pogreb
+
+// Contracts for GoVC (see /verif/DESIGN.md). This file contains only comments: with the build tag
+// `verif` off it is not compiled, with the tag on it adds nothing executable.
+// Lines starting with "//@" are read by the verifier; everything else is ignored.
+
+//@ func (sl slot) kvSize() uint32 [C16]
+//@   pure
+//@   ensures sum: r == uint32(sl.keySize) + sl.valueSize
+
+//@ func encodedRecordSize(kvSize uint32) uint32 [C16,C18]
+//@   pure
+//@   ensures size: r == kvSize + 10
+
+//@ func bucketOffset(idx uint32) int64 [C01,C18]
+//@   pure
+//@   ensures off: r == 512 + 512*int64(idx)
+//@   ensures pos: r >= 512
+
+//@ func (b *bucket) del(slotIdx int) [C01]
+//@   requires 0 <= slotIdx && slotIdx < slotsPerBucket
+//@   ensures before: forall p int :: 0 <= p && p < slotIdx ==> b.slots[p] == old(b.slots[p])
+//@   ensures shift: forall p int :: slotIdx <= p && p < slotsPerBucket-1 ==> b.slots[p] == old(b.slots[p+1])
+//@   ensures last: b.slots[slotsPerBucket-1] == slot{}
+//@   ensures next: b.next == old(b.next)
+//@   modifies b.slots
+//@   loop 1:
+//@     invariant slotIdx <= i && i <= slotsPerBucket-1
+//@     invariant forall p int :: old(slotIdx) <= p && p < i ==> b.slots[p] == old(b.slots[p+1])
+//@     invariant forall p int :: (p < old(slotIdx) || i <= p) ==> b.slots[p] == old(b.slots[p])
+//@     invariant slotIdx == old(slotIdx) && b == old(b)
+//@     decreases slotsPerBucket-1 - i
+//@     modifies b.slots
+
+// ---- on-disk format v2, transcribed from docs/design.md (not from the code) -----------------
+
+//@ spec func le16(m mem, o int) uint16 = uint16(m[o]) | uint16(m[o+1])<<8
+//@ spec func le32(m mem, o int) uint32 = uint32(m[o]) | uint32(m[o+1])<<8 | uint32(m[o+2])<<16 | uint32(m[o+3])<<24
+//@ spec func le64(m mem, o int) uint64 = uint64(m[o]) | uint64(m[o+1])<<8 | uint64(m[o+2])<<16 | uint64(m[o+3])<<24 | uint64(m[o+4])<<32 | uint64(m[o+5])<<40 | uint64(m[o+6])<<48 | uint64(m[o+7])<<56
+
+// A bucket is 512 bytes: 31 slots of 16 bytes (hash u32, segment id u16, key size u16, value size u32,
+// record offset u32, all little endian), then the 8-byte offset of the next overflow bucket, then padding.
+//@ spec func slotEncoded(m mem, o int, sl slot) bool = le32(m, o) == sl.hash && le16(m, o+4) == sl.segmentID && le16(m, o+6) == sl.keySize && le32(m, o+8) == sl.valueSize && le32(m, o+12) == sl.offset
+
+//@ func (b bucket) MarshalBinary() (buf []byte, err error) [C18,C01,C02]
+//@   ensures ok: err == nil && len(buf) == 512 && fresh(buf)
+//@   ensures slots: forall p int :: 0 <= p && p < 31 ==> slotEncoded(contents(buf), off(buf)+16*p, b.slots[p])
+//@   ensures next: le64(contents(buf), off(buf)+496) == uint64(b.next)
+//@   ensures pad: forall j int :: 504 <= j && j < 512 ==> buf[j] == 0
+//@   loop 1:
+//@     invariant 0 <= i && i <= 31
+//@     invariant fresh(data) && len(data) == 512 && cap(data) == 512
+//@     invariant arr(buf) == arr(data) && off(buf) == off(data) + 16*i && len(buf) == 512 - 16*i && cap(buf) == 512 - 16*i
+//@     invariant forall p int :: 0 <= p && p < i ==> slotEncoded(contents(data), off(data)+16*p, b.slots[p])
+//@     invariant forall j int :: off(data)+16*i <= j && j < off(data)+512 ==> contents(data)[j] == 0
+//@     decreases 31 - i
+
+//@ func (b *bucket) UnmarshalBinary(data []byte) (err error) [C18,C01,C02]
+//@   requires len: len(data) >= 512
+//@   ensures ok: err == nil
+//@   ensures slots: forall p int :: 0 <= p && p < 31 ==> slotEncoded(contents(data), off(data)+16*p, b.slots[p])
+//@   ensures next: uint64(b.next) == le64(contents(data), off(data)+496)
+//@   modifies b.slots, b.next
+//@   loop 1:
+//@     invariant 0 <= i && i <= 31 && b == old(b)
+//@     invariant arr(data) == old(arr(data)) && off(data) == old(off(data)) + 16*i && len(data) == old(len(data)) - 16*i && cap(data) == old(cap(data)) - 16*i
+//@     invariant forall p int :: 0 <= p && p < i ==> slotEncoded(contents(data), old(off(data))+16*p, b.slots[p])
+//@     decreases 31 - i
+//@     modifies b.slots
+
+// A database file starts with a 512-byte header: 8 signature bytes 70 6f 67 72 65 62 0e fd,
+// little-endian format version (2), zero padding.
+//@ spec func isSignature(m mem, o int) bool = m[o] == 0x70 && m[o+1] == 0x6f && m[o+2] == 0x67 && m[o+3] == 0x72 && m[o+4] == 0x65 && m[o+5] == 0x62 && m[o+6] == 0x0e && m[o+7] == 0xfd
+//@ spec func isHeaderV2(m mem, o int) bool = isSignature(m, o) && le32(m, o+8) == 2 && forall j int :: 12 <= j && j < 512 ==> m[o+j] == 0
+
+//@ func newHeader() (h *header) [C18]
+//@   ensures fresh: fresh(h) && h != nil
+//@   ensures version: h.formatVersion == 2
+//@   ensures sig: h.signature[0] == 0x70 && h.signature[1] == 0x6f && h.signature[2] == 0x67 && h.signature[3] == 0x72 && h.signature[4] == 0x65 && h.signature[5] == 0x62 && h.signature[6] == 0x0e && h.signature[7] == 0xfd
+
+//@ func (h header) MarshalBinary() (buf []byte, err error) [C18]
+//@   ensures ok: err == nil && len(buf) == 512 && fresh(buf)
+//@   ensures sig: forall j int :: 0 <= j && j < 8 ==> buf[j] == h.signature[j]
+//@   ensures ver: le32(contents(buf), off(buf)+8) == h.formatVersion
+//@   ensures pad: forall j int :: 12 <= j && j < 512 ==> buf[j] == 0
+
+//@ func (h *header) UnmarshalBinary(data []byte) (err error) [C18,C08]
+//@   requires len: len(data) >= 12
+//@   ensures sig: err == nil <==> isSignature(contents(data), off(data))
+//@   ensures corrupted: err != nil ==> err == errCorrupted
+//@   ensures ver: err == nil ==> h.formatVersion == le32(contents(data), off(data)+8)
+//@   modifies h.signature, h.formatVersion
+
+// A record is: key size (u16), value size (low 31 bits of a u32) with the record type in bit 31
+// (1 = delete), key, value, CRC-32/IEEE of everything before it.
+//@ func encodeRecord(key []byte, value []byte, rt recordType) (data []byte) [C08,C16,C18,C14]
+//@   requires klen: len(key) <= 0xffff
+//@   requires vlen: len(value) <= 0x7fffffff
+//@   requires rtype: rt == recordTypePut || rt == recordTypeDelete
+//@   ensures len: len(data) == 10 + len(key) + len(value) && fresh(data)
+//@   ensures ksize: le16(contents(data), off(data)) == uint16(len(key))
+//@   ensures vsize: le32(contents(data), off(data)+2) == uint32(len(value)) | uint32(ite(rt == recordTypeDelete, 0x80000000, 0))
+//@   ensures key: forall j int :: 0 <= j && j < len(key) ==> data[6+j] == key[j]
+//@   ensures value: forall j int :: 0 <= j && j < len(value) ==> data[6+len(key)+j] == value[j]
+//@   ensures crc: le32(contents(data), off(data)+len(data)-4) == crc(contents(data), off(data), len(data)-4)
+//@   flag lossless
